@@ -512,3 +512,41 @@ func InfeasibleNilEdges(dead func(b *ssa.BasicBlock, s int) bool) func(b *ssa.Ba
 		return true
 	}
 }
+
+// VarargElems returns the values stored into the backing array of a varargs
+// slice (`new [n]T; &t[i] = v; slice t[:]`), indexed by position.
+func VarargElems(v ssa.Value) []ssa.Value {
+	sl, ok := stripNoCell(v).(*ssa.Slice)
+	if !ok {
+		return nil
+	}
+	al, ok := sl.X.(*ssa.Alloc)
+	if !ok || al.Referrers() == nil {
+		return nil
+	}
+	out := map[int64]ssa.Value{}
+	max := int64(-1)
+	for _, r := range *al.Referrers() {
+		ia, ok := r.(*ssa.IndexAddr)
+		if !ok {
+			continue
+		}
+		idx, ok := ConstInt(ia.Index)
+		if !ok || ia.Referrers() == nil {
+			continue
+		}
+		for _, r2 := range *ia.Referrers() {
+			if st, ok := r2.(*ssa.Store); ok && st.Addr == ssa.Value(ia) {
+				out[idx] = st.Val
+				if idx > max {
+					max = idx
+				}
+			}
+		}
+	}
+	res := make([]ssa.Value, max+1)
+	for i, v := range out {
+		res[i] = v
+	}
+	return res
+}
